@@ -161,6 +161,37 @@ def _with_real_type(spec):
 for _n in range(8, 17):
     _with_real_type(PROPS['C%02d' % _n])
 
+# the C DIALECT the library is compiled in (seeded change C10-N): `-std=gnu89` for the library alone. a.h chooses types by __STDC_VERSION__ (a_bool is _Bool from C99 on and unsigned char
+# before: a value such as gcc's signbit() result 0x80000000 survives the first and truncates to 0 in the second), inline / restrict / long long / designated forms take their other arms.
+# A sibling of each check's first float configuration where it has one (C10, C11: fallback bodies, float), else of its main configuration.
+def _with_gnu89(spec):
+    base = spec['configs'] if 'configs' in spec else (lambda tier: [dict(name='default')])
+
+    def configs(tier):
+        cs = base(tier)
+        pick = None
+        for c in cs:
+            if c.get('real') == 4 and not c.get('hflags') and c.get('flavour') in (None, 'san') and not c.get('libflags') and not c.get('cflags') and not c.get('real_via_type'):
+                pick = c
+                break
+        if pick is None:
+            for c in cs:
+                if not c.get('harness') and not c.get('hflags') and c.get('flavour') in (None, 'san') and not c.get('libflags') and not c.get('cflags') and not c.get('libcc') and not c.get('libflavour'):
+                    pick = c
+                    break
+        if pick is None:
+            return cs
+        d = dict(pick)
+        d.update(name=pick['name'] + '-gnu89', libdrop=list(pick.get('libdrop', [])) + ['-std=gnu11'], libflags=['-std=gnu89'], hflags=['-DVF_LIB_GNU89'], nworkers=2, of=4)
+        return cs + [d]
+    spec['configs'] = configs
+    spec['parallel_configs'] = spec.get('parallel_configs', 1) + 1
+    spec['technique'] = spec.get('technique', '') + '; the library also compiled as gnu89'
+
+
+for _n in range(1, 20):
+    _with_gnu89(PROPS['C%02d' % _n])
+
 # byte order of aggregate members reversed (gcc -fsso-struct=big-endian, library side only): every scalar that lives in a struct or union is stored most significant
 # byte first, as on a big-endian machine, while plain objects, pointers and the harness keep the host order. The part of "regardless of byte order" that can be
 # EXECUTED on this little-endian host: code that reaches the bytes of a word through a union or struct member (seeded change C17-M: the CRC state kept in a
